@@ -260,6 +260,21 @@ def sel_eval(tree: dict, P: dict) -> list[int]:
     return [n['id'] for n in cur]
 
 
+def to_clark(path: str, namespaces: Any) -> str:
+    """a generated path (child / descendant steps, names with an optional prefix, `*`, `[k]`) in Clark spelling"""
+    namespaces = namespaces or {}
+    out = []
+    for step in path.split('/'):
+        m = re.match(r'^([A-Za-z_][\w.-]*:)?([A-Za-z_][\w.-]*)(\[\d+\])?$', step)
+        if not m:
+            out.append(step)            # '', '.', '*', '*[k]', '{uri}name…'
+            continue
+        pfx = (m.group(1) or ':')[:-1]
+        uri = namespaces.get(pfx)
+        out.append(('{%s}%s' % (uri, m.group(2)) if uri else m.group(2)) + (m.group(3) or ''))
+    return '/'.join(out)
+
+
 def abs_schema_path(root_tag: str, path: str) -> str:
     """xml_loader.py:207-215 get_absolute_path(path) for a path that is given"""
     return path if path.startswith('/') else f'/{root_tag}/{path}'
@@ -404,6 +419,7 @@ def check_find(ctx: Ctx, spec, doc: Doc, reqs: list, pend: list, base: dict) -> 
             continue
         allp = doc.all_plain(nid)
         ctx.count('step:' + ('plain' if doc.plain[nid] else 'non-plain'))
+        by_clark: dict = {}
         for form in forms:
             for positions in (False, True):
                 path, ns = doc.spell(nid, form, positions)
@@ -412,6 +428,14 @@ def check_find(ctx: Ctx, spec, doc: Doc, reqs: list, pend: list, base: dict) -> 
                     d = schema.find(path, ns)
                 except Exception as ex:  # noqa
                     ctx.failure('schema.find raised on an instance path', case, repr(ex))
+                    continue
+                # the spelling of the namespace (Clark, prefix, default namespace) must not change the lookup
+                if form == 'clark':
+                    by_clark[positions] = d
+                elif positions in by_clark and d is not by_clark[positions]:
+                    ctx.failure('schema.find(path of the element) depends on the spelling of the namespace in the path',
+                                case, {'kind': 'spelling', 'found': repr(d), 'found with the Clark spelling': repr(by_clark[positions]),
+                                       'governing': repr(g)})
                     continue
                 ctx.case(case, depth >= 1 or not allp, 'api:find')
                 same = d is g or (isinstance(d, XsdElement) and d.name == g.name and d.type is g.type)
@@ -441,11 +465,18 @@ def check_find(ctx: Ctx, spec, doc: Doc, reqs: list, pend: list, base: dict) -> 
                         ctx.failure('schema.get_element raised on an instance path', case_g, repr(ex))
                         continue
                     ctx.case(case_g, True, 'api:get_element')
+                    if form == 'clark':
+                        by_clark[('ge', positions)] = ge
+                    elif ('ge', positions) in by_clark and ge is not by_clark[('ge', positions)]:
+                        ctx.failure('schema.get_element(tag, path of the element) depends on the spelling of the namespace '
+                                    'in the path', case_g, {'kind': 'spelling', 'found': repr(ge), 'governing': repr(g),
+                                                            'found with the Clark spelling': repr(by_clark[('ge', positions)])})
+                        continue
                     if gov_equal(ge, g):
                         ctx.count('get_element:governing')
                     else:
                         ctx.count('get_element:other')
-                        pg_ = port_get_element(schema, node['tag'], path, ns)
+                        pg_ = port_get_element(schema, node['tag'], to_clark(path, ns), None)
                         pred_wild = positions and any(
                             doc.position(i)[0] > 1 and eg.gov.get(eg.parent[i]) is not None and
                             any(isinstance(c, XsdAnyElement) and c.is_matching(eg.node[i]['tag']) for c in eg.gov[eg.parent[i]])
@@ -784,10 +815,13 @@ class Partial:
 
     # ---- the lookup of a path-driven run, by the rule of its fall-backs on schema.find
     def lookups(self, path: str, namespaces: Any, selected: list[int]) -> dict:
+        """the reference lookup is made with the path in CLARK spelling: the spelling of the namespace (prefix,
+        default namespace) must not change which declaration a path finds"""
         from xmlschema.namespaces import NamespaceMapper
         eg = self.eg
-        nsm = dict(NamespaceMapper(namespaces, source=eg.res).namespaces)
-        sp = abs_schema_path(eg.res.root.tag, path)
+        nsm = dict(NamespaceMapper(None, source=eg.res).namespaces)
+        nsm.pop('', None)
+        sp = abs_schema_path(eg.res.root.tag, to_clark(path, namespaces))
         out = {}
         for s_ in selected:
             try:
@@ -1164,7 +1198,7 @@ def check_partial(ctx: Ctx, spec, doc: Doc, xml: bytes, reqs: list, pend: list, 
     if every is not None:
         for nid in every:
             for label, P in forms_for(doc, nid):
-                fs = forms3 if label in ('abs', 'rel', 'abs-pos') else [ctx.rng.choice(forms3)]
+                fs = forms3        # every path form in every spelling
                 for form in fs:
                     pt.one_form(nid, label, P, form)
         return
@@ -1383,12 +1417,15 @@ def compare(ctx: Ctx, reqs: list, pend: list, drv: Optional[Driver]) -> None:
                 ctx.mismatch('errors with max_depth', case, got, model)
 
 
-def family(ctx: Ctx, drv: Optional[Driver]) -> None:
+def family(ctx: Ctx, drv: Optional[Driver], deadline: Optional[float] = None) -> None:
+    import time
     n_schemas = ctx.pick(250, 1500)
     n_docs = ctx.pick(3, 6)
     built = 0
     attempts = 0
     while built < n_schemas and attempts < n_schemas * 4:
+        if deadline is not None and time.time() > deadline:
+            break
         attempts += 1
         spec = L.gen_schema(ctx.rng, maxdepth=ctx.rng.choice([2, 3, 3, 4]), identities=ctx.rng.random() < 0.3)
         try:
@@ -1908,16 +1945,16 @@ def run(ctx: Ctx, driver_ok: bool) -> None:
 
 
 def search(ctx: Ctx) -> None:
+    """widened exploration after a broken obligation / correspondence without a failing input: about one minute in
+    the quick tier (the thorough tier has explored its families already)"""
+    import time
     if ctx.quick():
-        saved = ctx.tier
-        ctx.tier = 'thorough'
-        try:
-            subst_family(ctx, None)
-            identity_family(ctx, None)
-            if not ctx.failures:
-                family(ctx, None)
-        finally:
-            ctx.tier = saved
+        deadline = time.time() + 60
+        subst_family(ctx, None, 60)
+        if not ctx.failures and time.time() < deadline:
+            identity_family(ctx, None, 40)
+        if not ctx.failures and time.time() < deadline:
+            family(ctx, None, deadline)
 
 
 def replay_case(ctx: Ctx, drv: Optional[Driver], case: dict) -> bool:
